@@ -2,10 +2,6 @@ package main
 
 import (
 	"fmt"
-	"math"
-
-	"github.com/jrhy/s3db"
-	"google.golang.org/protobuf/proto"
 
 	"verif/harness/sqlh"
 )
@@ -13,16 +9,10 @@ import (
 func init() { cmds["scratch"] = scratch }
 
 func scratch(args []string) int {
-	cv := s3db.ToColumnValue(math.Copysign(0, -1))
-	c2 := proto.Clone(cv)
-	fmt.Printf("clone: %016x -> %v\n", math.Float64bits(cv.Value.Real), c2)
 	db := sqlh.Open()
-	bk, _ := sqlh.Bucket()
-	fmt.Println(sqlh.XS(db, sqlh.CreateSQL(sqlh.TableOpts{Name: "t1", Bucket: bk, Prefix: "p", Columns: "k primary key, a, b"})))
-	sqlh.SetWriteTime(db, 1)
-	fmt.Println(sqlh.XS(db, "insert into t1 values(?,?,?)", 1, math.Copysign(0, -1), 1))
-	sqlh.SetWriteTime(db, 2)
-	fmt.Println(sqlh.XS(db, "update t1 set b=2 where k=1"))
-	fmt.Println("after update of b at a later time:", sqlh.QS(db, "select k,a,b from t1"))
+	b, _ := sqlh.Bucket()
+	for _, v := range []string{"0o20", "0b100", "0x10", "017", "1_000"} {
+		fmt.Println(v, sqlh.XS(db, fmt.Sprintf(`create virtual table "t%s" using s3db (entries_per_node=%s, s3_bucket='%s', columns='a primary key', s3_endpoint='http://fakes3.invalid', s3_prefix='p')`, v, v, b)))
+	}
 	return 0
 }
